@@ -141,6 +141,15 @@ func body(s *simrt.Sim, tier string) {
 	for a := 0; a < nadders; a++ {
 		n := 1 + s.Choose(6, "nops")
 		var l []aop
+		// a marathon: one busy period of some seventy Adds, each inside the window the previous one opened
+		// (the window must double up to the maximum and then stay there, however long events keep arriving)
+		marathon := settled && !bursts && s.Choose(12, "marathon") == 0
+		if marathon {
+			n = 0
+			for k := 0; k < 66+s.Choose(8, "marathonlen"); k++ {
+				l = append(l, aop{burst: 1}, aop{sleep: initial / 4})
+			}
+		}
 		for k := 0; k < n; k++ {
 			if s.Choose(5, "sleep?") < 2 {
 				l = append(l, aop{sleep: palette[s.Choose(len(palette), "sleep")]})
